@@ -298,26 +298,46 @@ def run(repo, rep, tier):
             continue
         nfun += 1
         setnames = set()
-        for n in walk_no_nested(f):
-            if isinstance(n, (ast.Assign, ast.AnnAssign)) and n.value is not None:
-                v = n.value
-                if isinstance(v, (ast.Set, ast.SetComp)) or (isinstance(v, ast.Call) and isinstance(v.func, ast.Name) and v.func.id in ('set', 'frozenset')):
+
+        def is_set(v):
+            """abstract type: the expression evaluates to a set (display, comprehension, constructor, set algebra on one, a local bound to one)"""
+            if isinstance(v, (ast.Set, ast.SetComp)):
+                return True
+            if isinstance(v, ast.Call) and isinstance(v.func, ast.Name) and v.func.id in ('set', 'frozenset'):
+                return True
+            if isinstance(v, ast.Name):
+                return v.id in setnames
+            if isinstance(v, ast.BinOp) and isinstance(v.op, (ast.Sub, ast.BitOr, ast.BitAnd, ast.BitXor)):
+                return is_set(v.left) or is_set(v.right)
+            if isinstance(v, ast.Call) and isinstance(v.func, ast.Attribute) and v.func.attr in ('union', 'intersection', 'difference', 'symmetric_difference', 'copy'):
+                return is_set(v.func.value)
+            if isinstance(v, ast.IfExp):
+                return is_set(v.body) or is_set(v.orelse)
+            return False
+        grew = True
+        while grew:
+            grew = False
+            for n in walk_no_nested(f):
+                if isinstance(n, (ast.Assign, ast.AnnAssign)) and n.value is not None and is_set(n.value):
                     for t in (n.targets if isinstance(n, ast.Assign) else [n.target]):
-                        if isinstance(t, ast.Name):
+                        if isinstance(t, ast.Name) and t.id not in setnames:
                             setnames.add(t.id)
+                            grew = True
+        ORDER_FREE = ('any', 'all', 'sum', 'len', 'set', 'frozenset', 'sorted', 'min', 'max')
         for n in walk_no_nested(f):
             its = []
             if isinstance(n, ast.For):
                 its.append(n.iter)
-            if isinstance(n, (ast.ListComp, ast.GeneratorExp, ast.DictComp, ast.SetComp)):
-                its += [g.iter for g in n.generators]
+            if isinstance(n, (ast.ListComp, ast.GeneratorExp, ast.DictComp)):
+                par = getattr(n, '_parent', None)
+                if not (isinstance(par, ast.Call) and isinstance(par.func, ast.Name) and par.func.id in ORDER_FREE and par.args and par.args[0] is n):      # the consumer does not depend on the order
+                    its += [g.iter for g in n.generators]
             if isinstance(n, ast.Call) and isinstance(n.func, ast.Name) and n.func.id in ('list', 'tuple') and n.args:
                 its.append(n.args[0])
             if isinstance(n, ast.Call) and isinstance(n.func, ast.Attribute) and n.func.attr == 'join' and n.args:
                 its.append(n.args[0])
             for it in its:
-                bad_it = isinstance(it, (ast.Set, ast.SetComp)) or (isinstance(it, ast.Call) and isinstance(it.func, ast.Name) and it.func.id in ('set', 'frozenset')) or (isinstance(it, ast.Name) and it.id in setnames)
-                if bad_it:
+                if is_set(it):
                     rep.check('determinism', 'no iteration over a set in %s' % fid, False, n, 'iteration order of a set depends on the hash seed: %s' % unparse(it)[:60])
             if isinstance(n, ast.Call) and isinstance(n.func, ast.Name) and n.func.id in ('hash', 'id'):
                 rep.check('determinism', 'no hash()/id() in %s' % fid, False, n, '%s() on the audit path' % n.func.id)
